@@ -36,7 +36,7 @@ ASSUMPTIONS = [
     "census mode skips the semantic obligations of the borrowed harnesses (they are decided by those properties' own checks)",
     "dictionary faults use concrete numbers (the fault position and kind are what is enumerated); real json, real files",
 ]
-BOUNDS = {"quick": {"census sample": "~25 shapes per borrowed property", "dictionary faults": "exhaustive single faults on 2 base contracts x 2 representations x 3 entry points"}, "thorough": {"census sample": "~250 shapes per borrowed property", "dictionary faults": "same, 6 base contracts"}}
+BOUNDS = {"quick": {"census sample": "~25 shapes per borrowed property", "dictionary faults": "exhaustive single faults on 2 base contracts x 2 representations x 3 entry points"}, "thorough": {"census sample": "~120 shapes per borrowed property", "dictionary faults": "same, 6 base contracts"}}
 OPTS = {"quick": {"tier_budget_s": 480, "max_paths": 1500, "job_budget_s": 40, "witness_rate": 0.1}, "thorough": {"tier_budget_s": 2400, "max_paths": 20000, "job_budget_s": 300, "witness_rate": 0.2}}
 REACH = {"quick": ["OK", "VE", "IAE", "SYNTAX", "CONVEX", "CFE", "census", "adversarial", "dict-fault", "file-fault", "rejected"]}
 BORROW = ["C01", "C02", "C03", "C04", "C07", "C08", "C09", "C10", "C11", "C12", "C15", "C16", "C17"]
@@ -136,7 +136,7 @@ def apply_fault(d, path, kind):
 def jobs(tier, seed):
     rng = random.Random(seed * 7919 + 14)
     out = []
-    per = 25 if tier == "quick" else 250
+    per = 25 if tier == "quick" else 120
     for prop in BORROW:
         mod = importlib.import_module(f"pv.props.{prop}")
         js = mod.jobs("quick" if tier == "quick" else "thorough", seed)
